@@ -200,3 +200,37 @@ Theorem young_raw_fresh ops :
   Forall2 (fun (i : nt_info) (cs : nat * sample) => (fst cs <= 3)%nat -> ni_out i = raw_f (snd cs))
           (nt_trace (nt_zero 0) ops) (combine (since_counts 0 0 ops) (do_samples ops)).
 Proof. apply young_raw. apply tracked_zero. Qed.
+
+(* ---- Reset equals fresh ---- *)
+
+Lemma zero_step e op : nt_step (nt_zero e) op = nt_step (nt_zero 0) op.
+Proof.
+  destruct op as [e' s|e']; cbn [nt_step]; [|reflexivity].
+  assert (E : nt_do_info (nt_zero e) e' s = nt_do_info (nt_zero 0) e' s).
+  { assert (E : nt_pre (nt_zero e) e' = nt_pre (nt_zero 0) e').
+    { unfold nt_pre. cbn [nt_epoch nt_zero].
+      destruct (e =? e') eqn:E1; [apply Z.eqb_eq in E1; subst e|];
+        (destruct (0 =? e') eqn:E2; [apply Z.eqb_eq in E2; subst e'|]); reflexivity. }
+    unfold nt_do_info. rewrite E. reflexivity. }
+  rewrite E. reflexivity.
+Qed.
+
+Lemma zero_run e ops : nt_run (nt_zero e) ops = nt_run (nt_zero 0) ops.
+Proof. destruct ops as [|op r]; [reflexivity|]. unfold nt_run. cbn [nt_trace]. rewrite (zero_step e op). reflexivity. Qed.
+
+(* for ALL states f: after Reset (under any epoch) the filter answers every further history like a new one *)
+Theorem reset_equals_fresh f e ops : nt_run f (NReset e :: ops) = nt_run (nt_zero 0) ops.
+Proof. unfold nt_run at 1. cbn [nt_trace nt_step]. apply zero_run. Qed.
+
+(* the state Reset leaves is the zero state of that epoch, whatever it was *)
+Theorem reset_state f e : nt_after f [NReset e] = nt_zero e.
+Proof. reflexivity. Qed.
+
+(* ... and so does a Do under another epoch than the filter's *)
+Theorem epoch_change_equals_fresh f e s ops : nt_epoch f <> e ->
+  nt_run f (NDo e s :: ops) = nt_run (nt_zero 0) (NDo e s :: ops).
+Proof.
+  intros H. unfold nt_run. cbn [nt_trace].
+  rewrite (reset_point_forgets f (NDo e s)); [reflexivity|].
+  cbn [is_reset_point]. apply negb_true_iff. apply Z.eqb_neq. intros E. apply H. symmetry. exact E.
+Qed.
